@@ -330,6 +330,85 @@ func MountAfterLookup(out *RunResult) {
 	}
 }
 
+// NestedMountGroups: the only handler with a Group option sits two mount levels down, the levels built from
+// the outside in (s.Route("api", nil), then api.Route("v2", ...)). Requests and With callbacks for its
+// resources belong to that one group: they run one at a time.
+func NestedMountGroups(out *RunResult) {
+	viol := func(kind, text string) {
+		if len(out.Violations) < 5 {
+			out.Violations = append(out.Violations, Violation{Property: "C01", Kind: kind, Text: text, Sig: map[string]string{"kind": kind, "engine": "sched", "group": "models"}})
+		}
+	}
+	for variant := 0; variant < 2; variant++ {
+		var vmu sync.Mutex
+		var inside int32
+		s := res.NewService("test")
+		s.SetLogger(nil)
+		s.SetWorkerCount(4)
+		body := func(group, where string) {
+			if group != "models" {
+				vmu.Lock()
+				viol("wrong-group", fmt.Sprintf("%s ran in worker group %q, the handler's group is \"models\"", where, group))
+				vmu.Unlock()
+			}
+			if atomic.AddInt32(&inside, 1) > 1 {
+				vmu.Lock()
+				viol("group-overlap", fmt.Sprintf("two callbacks of group \"models\" executing at once (%s entered while another was inside)", where))
+				vmu.Unlock()
+			}
+			for i := 0; i < 200; i++ {
+				runtime.Gosched()
+			}
+			atomic.AddInt32(&inside, -1)
+		}
+		h := []res.Option{res.Group("models"), res.GetResource(func(r res.GetRequest) { body(r.Group(), "get "+r.ResourceName()); r.NotFound() }),
+			res.Call("m", func(r res.CallRequest) { body(r.Group(), "call "+r.ResourceName()); r.OK(nil) })}
+		api := s.Route("api", nil)
+		if variant == 0 {
+			api.Route("v2", func(m *res.Mux) { m.Handle("model.$id", h...) })
+		} else {
+			v2 := res.NewMux("")
+			v2.Handle("model.$id", h...)
+			api.Mount("v2", v2)
+		}
+		conn := rconn.New(nil)
+		served := make(chan struct{})
+		s.SetOnServe(func(*res.Service) { close(served) })
+		done := make(chan error, 1)
+		go func() { done <- s.Serve(conn) }()
+		select {
+		case <-served:
+		case <-time.After(3 * time.Second):
+			return
+		}
+		var wg sync.WaitGroup
+		for p := 0; p < 2; p++ {
+			wg.Add(1)
+			go func(p int) {
+				defer wg.Done()
+				for i := 0; i < 300; i++ {
+					rid := fmt.Sprintf("test.api.v2.model.%d", (i+p)%4)
+					switch (i + p) % 3 {
+					case 0:
+						conn.Deliver("get."+rid, "inbox.x", nil)
+					case 1:
+						conn.Deliver("call."+rid+".m", "inbox.x", nil)
+					default:
+						s.With(rid, func(r res.Resource) { body(r.Group(), "With "+rid) })
+					}
+				}
+			}(p)
+		}
+		wg.Wait()
+		time.Sleep(20 * time.Millisecond)
+		s.Shutdown()
+		select {
+		case <-done:
+		case <-time.After(3 * time.Second):
+		}
+	}
+}
+
 // TwoListenerLoop: the first life's Serve call is held in its OnServe callback while requests pile up in its
 // in-channel; the service is shut down and served again; then the first call is released and passes its backlog on
 // while the second life's listener receives requests too. Every callback must run in the worker group that its
@@ -431,6 +510,7 @@ func TwoListenerLoop(seed int64, prog Program, n int) *RunResult {
 		out.Steps++
 	}
 	MountAfterLookup(out)
+	NestedMountGroups(out)
 	return out
 }
 
